@@ -221,8 +221,10 @@ fn oracle_random(case: &[u8], obs: &mut Obs) -> Result<(), String> {
         1 => w + c.below(3) as usize,
         _ => c.below(41) as usize,
     };
-    let off = match c.below(8) {
+    let off = match c.below(10) {
         0 => usize::MAX - c.below(17) as usize,
+        // 2^s + (an offset that would be readable): a cursor whose high bits fall off in any widening/shifting step
+        8 | 9 => (1usize << (32 + c.below(32))).wrapping_add(c.below(len as u64 + 2) as usize),
         1 => c.u64() as usize,
         2 => len.saturating_sub(w),
         3 => (len + 1).saturating_sub(w),
@@ -253,7 +255,7 @@ pub fn property() -> Property {
     Property {
         id: "C04",
         level: "exploration",
-        rule: "cases are (byte-order spec in {LE,BE,Any::Little,Any::Big,Native}, width in {u8,u16,u32,u64,i32,i64}, buffer, offset); oracle = shift-and-add reference, offset'=offset+w on success, Err and offset untouched on failure; the run-time and native specifications return exactly what the matching fixed specification returns (value or error variant with its payload, and cursor). small: exhaustive enumeration for u8/u16 (every byte value / byte pair at every position and every failing offset of buffers of length 0..4). random: proptest choice sequences for all widths with boundary/sign patterns and offsets incl. usize::MAX-16..=usize::MAX. beyond_4gib: reads at offsets 2^32-16 .. 2^32+73 of a 2^32+64 byte buffer (lazily mapped zero pages), all specs and widths. Non-trivial: a successful read at a non-zero offset of a value with pairwise distinct bytes, or a failing read at a non-zero offset; distinct by case hash.",
+        rule: "cases are (byte-order spec in {LE,BE,Any::Little,Any::Big,Native}, width in {u8,u16,u32,u64,i32,i64}, buffer, offset); oracle = shift-and-add reference, offset'=offset+w on success, Err and offset untouched on failure; the run-time and native specifications return exactly what the matching fixed specification returns (value or error variant with its payload, and cursor). small: exhaustive enumeration for u8/u16 (every byte value / byte pair at every position and every failing offset of buffers of length 0..4). random: proptest choice sequences for all widths with boundary/sign patterns and offsets incl. usize::MAX-16..=usize::MAX and 2^s+i for s in 32..63 with i a readable offset. beyond_4gib: reads at offsets 2^32-16 .. 2^32+73 of a 2^32+64 byte buffer (lazily mapped zero pages), all specs and widths. Non-trivial: a successful read at a non-zero offset of a value with pairwise distinct bytes, or a failing read at a non-zero offset; distinct by case hash.",
         assumptions: &["64-bit little-endian host: NativeEndian is compared with cfg!(target_endian) of this build only"],
         subs: vec![Sub::enumerated("small", oracle_small, enum_small, true), Sub::new("random", oracle_random, 96, 3_000_000, 40_000_000), Sub::enumerated("beyond_4gib", oracle_big, enum_big, false)],
         extras: vec![crate::fuzz::c04_choice],
